@@ -201,6 +201,9 @@ static void snapshot_check_others(int t, const char *unused)
 void w_dtor(void)
 {
   build_world();
+#ifdef VP_REPLAYABLE
+  __CPROVER_assume(spec_constructible());
+#endif
   const int t = W_T;
   _Bool unfulfilled = !in_reported[t] && in_where[t] != 2 && in_cnt[t] < in_min[t];
   CM_DTOR(cm[t]);
@@ -238,6 +241,9 @@ void w_dtor(void)
 void w_mockdtor(void)
 {
   build_world();
+#ifdef VP_REPLAYABLE
+  __CPROVER_assume(spec_constructible());
+#endif
   int expected = 0;
   for (int i = 0; i < N; i++) if (in_where[i] != 2 && !in_reported[i] && in_cnt[i] < in_min[i]) expected++;
   EXPS_DTOR(exps);
@@ -270,6 +276,9 @@ void w_mockdtor(void)
 void w_seqdtor(void)
 {
   build_world();
+#ifdef VP_REPLAYABLE
+  __CPROVER_assume(spec_constructible());
+#endif
   int pending = 0;
   for (int i = 0; i < N; i++) for (int k = 0; k < 2; k++) if (k < in_K[i] && seq_of(i, k) == 0 && in_linked[i][k]) pending++;
   ST_DTOR(seq[0]);
